@@ -81,9 +81,9 @@ def check_theorems(pid, files):
         if not os.path.exists(path):
             return
         txt = open(path).read()
-        for m in re.finditer(r"From Ark Require (?:Import|Export) ([^.]*(?:\.[A-Z][^.\s]*)*)\.", txt):
+        for m in re.finditer(r"From Ark Require (?:Import|Export)\s+((?:[A-Za-z0-9_.]+\s*)+?)\.\s*(?:\n|$)", txt):
             for mod in m.group(1).split():
-                closure(mod.replace(".", "/") + ".v")
+                closure(mod.strip().replace(".", "/") + ".v")
     for f in files:
         closure(f)
     forbidden = re.compile(r"\b(Admitted|admit|Axiom|Parameter|Conjecture|Unset Guard|bypass_check|Admit Obligations)\b")
